@@ -49,8 +49,8 @@ def repo_tree_hash():
 # property table: which engines serve a property and with which populations
 
 L1_POPS = {
-    "C01": ["C01"], "C03": ["C03"] * 6 + ["C03scale"], "C05": ["C05"], "C06": ["C06"], "C07": ["C07"],
-    "C08": ["C08"], "C09": ["C09"], "C12": ["C12"], "C19": ["C19"],
+    "C01": ["C01"] * 7 + ["C01fanin"], "C03": ["C03"] * 6 + ["C03scale"], "C05": ["C05"], "C06": ["C06"], "C07": ["C07"],
+    "C08": ["C08"], "C09": ["C09"], "C12": ["C12"], "C19": ["C19"] * 7 + ["C19fanin"],
 }
 L2_PROPS = {"C01", "C02", "C03", "C04", "C05", "C06", "C07", "C08", "C09", "C10", "C11", "C12", "C15", "C18", "C19", "C20"}
 ALL_PROPS = sorted(set(L1_POPS) | L2_PROPS)
